@@ -7,7 +7,6 @@ Open Scope N_scope.
    rule, fallback, generic DWARF), with any cache: the stack pointer does not decrease, and if it
    stays the same the reported address is the word below it and differs from the current address. *)
 Theorem C10_caller_step_x86 : forall u c x rg m ra,
-  no_pe (mods _ u) ->
   o_res _ _ (unwind_frame_x u c (RA x) rg m) = Ok (Some ra) ->
   let rg' := o_regs _ _ (unwind_frame_x u c (RA x) rg m) in
   ra <> 0 /\ ip rg' = ra /\
@@ -17,7 +16,6 @@ Print Assumptions C10_caller_step_x86.
 
 (* no success while both stack pointer and code address stay unchanged *)
 Theorem C10_no_self_loop_x86 : forall u c x rg m ra,
-  no_pe (mods _ u) ->
   ip rg = x ->
   o_res _ _ (unwind_frame_x u c (RA x) rg m) = Ok (Some ra) ->
   let rg' := o_regs _ _ (unwind_frame_x u c (RA x) rg m) in
@@ -29,7 +27,6 @@ Print Assumptions C10_no_self_loop_x86.
    (address, sp, fp) state is visited twice and a walk has at most 2*(sp_end - sp_start)+1
    successful caller steps - it terminates whatever the memory contains *)
 Theorem C10_two_steps_advance_x86 : forall u c1 c2 x rg m ra1 ra2,
-  no_pe (mods _ u) ->
   ip rg = x ->
   o_res _ _ (unwind_frame_x u c1 (RA x) rg m) = Ok (Some ra1) ->
   let rg1 := o_regs _ _ (unwind_frame_x u c1 (RA x) rg m) in
